@@ -60,6 +60,9 @@ def strategy(tier):
         "seeds": st.lists(ref, min_size=1, max_size=4),
         "nest": nest,
         "timing": st.sampled_from(TIMING),      # print_timing option of the top-level network
+        # incremental build (as in examples/topology_optimization/ex_compliance.py): the top network is created from the
+        # first part of the modules, evaluated and back-propagated once, and the rest is append()-ed afterwards
+        "incremental": st.one_of(st.none(), st.none(), st.integers(1, 12)),
         # common magnitude of all seeds: the total derivative is linear in the seeds, so tiny or huge adjoints must
         # propagate exactly like O(1) ones (compared relative to the expected magnitude)
         "seed_scale": st.sampled_from([1.0, 1.0, 1.0, 1e-9, 1e-12, 1e7]),
@@ -461,7 +464,25 @@ def _check_case(case):
         items[a:a + ln] = [net]
         labels.append("nested")
         labels.append("nest:" + mode)
-    top = pym.Network(items, print_timing=case.get("timing", False))
+    inc = case.get("incremental")
+    if inc is not None and len(items) >= 2:
+        k = 1 + (inc - 1) % (len(items) - 1)
+        top = pym.Network(items[:k], print_timing=case.get("timing", False))
+        try:
+            top.response()
+            lastout = [m for m in items[:k] if not isinstance(m, pym.Network)]
+            if lastout and lastout[-1].sig_out and lastout[-1].sig_out[0].state is not None:
+                so = lastout[-1].sig_out[0]
+                so.sensitivity = np.ones_like(so.state)
+            top.sensitivity()
+            top.reset()
+            top.append(*items[k:])
+        except Exception as e:
+            bad(f"raises:incremental_build:{type(e).__name__}", repr(e)[:500])
+            return labels, V
+        labels.append("incremental_build")
+    else:
+        top = pym.Network(items, print_timing=case.get("timing", False))
     if case.get("timing", False) is not False:
         labels.append("top_timing")
 
